@@ -11,6 +11,7 @@ def run(ctx, rep):
         "sdo_write_array / sdo_read_array use sub-indices i+1 / 1..=len and write the count last (after zeroing it first)",
         "validate_response compares index and sub-index of the response with the request's",
         "segmented uploads: every command specifier a SubDevice can answer with (0 segment, 2 upload, 3 download, 4 abort) is decodable; the payload handed back starts after the headers of the service that was decoded (9 bytes for a segment, 12 for an initiate response); the part of the object carried by the initiate response is copied before the segment loop and the running length starts there",
+        "every EtherCrabWireSized impl's buffer() is as long as its PACKED_LEN (sdo_read / eeprom_read size their destination with T::buffer())",
         "an emergency is recognised from the mailbox + CoE header alone, before any SDO field is decoded, and its data is read at byte 8",
     ]
     rep.undecided += ["delivered bytes for all sizes x modes x mailbox sizes"]
@@ -25,6 +26,7 @@ def run(ctx, rep):
         arrays(prog, rep, tag)
         validate(prog, rep, tag)
         segments(ctx, prog, rep, tag)
+        buffers(prog, rep, tag)
 
 
 def _eq_cond(b, cd, field_adt, field, variant):
@@ -396,3 +398,65 @@ def _field_types(prog, name):
                 for f in v.get("fields", []):
                     out.append(f.get("ty", "") if isinstance(f, dict) else str(f))
     return out
+
+
+def buffers(prog, rep, tag):
+    """sdo_read::<T> (and eeprom_read::<T>) receive into `T::buffer()` and compare the object's size with
+    its length: a Buffer shorter than T::PACKED_LEN makes a fitting object 'too long' (normal upload) or
+    undecodable.  For every impl: the array length of the buffer type, as an expression, equals PACKED_LEN."""
+    import re
+    P = "C15.buffer"
+    impls = {}
+    for b in prog.bodies:
+        m = re.match(r"<(.+) as EtherCrabWireSized>::(buffer|PACKED_LEN)$", b.short)
+        if m:
+            impls.setdefault((b.crate, m.group(1)), {})[m.group(2)] = b
+    n = 0
+    for (crate, ty), d in sorted(impls.items()):
+        if "buffer" not in d or "PACKED_LEN" not in d:
+            continue
+        n += 1
+        bt = d["buffer"].locals[0]["ty"]
+        m = re.match(r"\[u8; (.+)\]$", bt)
+        pl = q.expr_tree(d["PACKED_LEN"], {"copy": {"l": 0, "p": []}})
+        ok = False
+        want = q.tree_str(pl)
+        if m:
+            ln = m.group(1).strip()
+            if pl[0] == "const":
+                ok = ln.isdigit() and int(ln) == pl[1]
+            elif pl[0] == "leaf":
+                # a bare const parameter: PACKED_LEN = N, buffer [u8; N]
+                c = _tyconst_of_body(d["PACKED_LEN"])
+                ok = c is not None and c == ln
+                want = c or want
+            else:
+                # N * k: equal to [u8; N] only for k == 1; for k > 1 no [u8; _] type can say that on stable
+                # and [u8; N] is k times too short
+                c = _tyconst_of_body(d["PACKED_LEN"])
+                ok = pl[0] == "Mul" and ((pl[1][0] == "leaf" and pl[2] == ("const", 1)) or (pl[2][0] == "leaf" and pl[1] == ("const", 1))) and c == ln
+                want = _tree_with_params(d["PACKED_LEN"], pl)
+        rep.ob(P, "%s%s" % (ty, tag), ok, "<%s as EtherCrabWireSized>: buffer() is %s, PACKED_LEN is %s" % (ty, bt, want), loc=d["buffer"].span, how="table", nontrivial=(pl[0] != "const"))
+    rep.floor("C15 sized impls" + tag, n, 80)
+
+
+def _tyconst_of_body(b):
+    for bi in b.live_blocks():
+        for st in b.stmts(bi):
+            if st["k"] == "assign":
+                for a in st["rv"].get("a", []):
+                    c = a.get("const") if isinstance(a, dict) else None
+                    if isinstance(c, dict) and c.get("tyconst"):
+                        return c["tyconst"]
+    return None
+
+
+def _tree_with_params(b, t):
+    c = _tyconst_of_body(b) or "?"
+    def go(x):
+        if x[0] == "leaf":
+            return c
+        if x[0] == "const":
+            return str(x[1])
+        return "%s(%s, %s)" % (x[0], go(x[1]), go(x[2]))
+    return go(t)
